@@ -120,7 +120,7 @@ def run(ctx, rep):
     ub = anchor(F, rep, "C13.flush", "metadata::update_file")
     if ub is not None:
         direct = [t for _, t in ub.calls() if re.search(r"std::io::BufWriter::<W>::new$", callee_name(t))]
-        rep.check("C13.flush", "update_file writes in place only through write_in_place", not direct and len(call_blocks(ub, r"update_file::write_in_place$")) == 3, loc_of(ub))
+        rep.check("C13.flush", "update_file writes in place only through write_in_place", not direct and len(call_blocks(ub, r"update_file::write_in_place$")) >= 1, loc_of(ub))
 
     # ---- C13.conv -------------------------------------------------------------------------------------
     cb = [b for b in F.bodies if b.promoted is None and b.path == "<impl std::convert::From<Error> for std::io::Error>::from"]
